@@ -246,6 +246,20 @@ func (lc *lenChecker) minLen(x ssa.Value, at *ssa.BasicBlock, depth int) int64 {
 			if v.Low != nil {
 				c, ok := constInt(v.Low)
 				if !ok {
+					// arr[a·k+c:] of an array of N elements with 0 <= k < n: at least
+					// N − (a·(n−1)+c) elements remain
+					if pt, isP := v.X.Type().Underlying().(*types.Pointer); isP {
+						if at, isA := pt.Elem().Underlying().(*types.Array); isA {
+							isInd := func(x ssa.Value) bool { _, n, ok := boundedInduction(x, v.Block()); return ok && n >= 1 }
+							if coef, base, k0, okA := affineOfStop(v.Low, isInd); okA && base != nil && coef >= 0 {
+								if _, n, okB := boundedInduction(base, v.Block()); okB && n >= 1 {
+									if rem := at.Len() - (coef*(n-1) + k0); rem >= 0 {
+										up(rem)
+									}
+								}
+							}
+						}
+					}
 					return best
 				}
 				lo = c
@@ -263,6 +277,13 @@ func (lc *lenChecker) minLen(x ssa.Value, at *ssa.BasicBlock, depth int) int64 {
 				lo = c
 			}
 			up(h - lo)
+		} else if v.Low != nil {
+			// x[a·(k+c1) : a·(k+c2)]: a window of constant length a·(c2−c1)
+			ca, ba, ka, ok1 := affineOf(v.Low)
+			cb, bb, kb, ok2 := affineOf(v.High)
+			if ok1 && ok2 && ca == cb && ba == bb && ba != nil && kb-ka >= 0 {
+				up(kb - ka)
+			}
 		}
 	case *ssa.Extract:
 		if c, ok := v.Tuple.(*ssa.Call); ok && v.Index == 0 {
@@ -932,3 +953,52 @@ func sizeEquationGuard(cond *Term) (bool, string) {
 }
 
 var _ = constant.Int
+
+// affineOf: v = coef·base + k for an SSA value base and integer constants (base nil for a constant).
+func affineOf(v ssa.Value) (coef int64, base ssa.Value, k int64, ok bool) {
+	return affineOfStop(v, nil)
+}
+
+// affineOfStop: as affineOf, but a value for which stop holds is taken as the base as it is.
+func affineOfStop(v ssa.Value, stop func(ssa.Value) bool) (coef int64, base ssa.Value, k int64, ok bool) {
+	if c, isC := constInt(v); isC {
+		return 0, nil, c, true
+	}
+	if stop != nil && stop(v) {
+		return 1, v, 0, true
+	}
+	if bo, isB := v.(*ssa.BinOp); isB {
+		switch bo.Op {
+		case token.ADD, token.SUB:
+			c1, b1, k1, ok1 := affineOfStop(bo.X, stop)
+			c2, b2, k2, ok2 := affineOfStop(bo.Y, stop)
+			if !ok1 || !ok2 {
+				break
+			}
+			if bo.Op == token.SUB {
+				c2, k2 = -c2, -k2
+			}
+			switch {
+			case b1 == nil:
+				return c2, b2, k1 + k2, true
+			case b2 == nil:
+				return c1, b1, k1 + k2, true
+			case b1 == b2:
+				return c1 + c2, b1, k1 + k2, true
+			}
+		case token.MUL:
+			c1, b1, k1, ok1 := affineOfStop(bo.X, stop)
+			c2, b2, k2, ok2 := affineOfStop(bo.Y, stop)
+			if !ok1 || !ok2 {
+				break
+			}
+			switch {
+			case b1 == nil:
+				return k1 * c2, b2, k1 * k2, true
+			case b2 == nil:
+				return k2 * c1, b1, k2 * k1, true
+			}
+		}
+	}
+	return 1, v, 0, true
+}
